@@ -93,6 +93,11 @@ class ModesTaint:
     def destroyed(self, e: ast.AST) -> Optional[str]:
         """e = sorted(M) / np.sort(M) / np.unique(M) / set(M) [possibly wrapped in tuple/list] with M derived, or the
         complement of the complement of M (which is M in ascending order)."""
+        # set arithmetic on a set of the tuple: set(M) - other, set(M) & other ...
+        if isinstance(e, ast.BinOp) and isinstance(e.op, (ast.Sub, ast.BitAnd, ast.BitOr, ast.BitXor)):
+            d = self.destroyed(e.left)
+            if d in ("set", "frozenset"):
+                return "set"
         if isinstance(e, ast.Call):
             nm = (dotted(e.func) or "").split(".")[-1]
             if nm in ORDER_DESTROYING and e.args and self.derived(e.args[0]):
@@ -209,7 +214,8 @@ def run(ctx: Context) -> None:
     for mod, cname in (("piquasso.api.program", "Program"), ("piquasso.api.simulator", "Simulator"), ("piquasso.api.instruction", "Instruction")):
         c = idx.find_class(mod, cname)
         for m in c.methods.values():
-            roots.append((m, {p for p in m.all_params() if p in ("modes", "mode")}))
+            # `active_modes` is the simulator's own position-bearing tuple (positions are looked up with .index)
+            roots.append((m, {p for p in m.all_params() if p in ("modes", "mode", "active_modes", "modes_to_remap")}))
     n_funcs, n_uses = scan_order(ctx, res, roots, "C16a", "C16b")
     ctx.count("functions examined", n_funcs)
     ctx.require_floor("functions examined", n_funcs, 150)
